@@ -12,6 +12,7 @@ import (
 	"strings"
 
 	"github.com/elnosh/gonuts/cashu"
+	"github.com/elnosh/gonuts/cashu/nuts/nut11"
 	"github.com/elnosh/gonuts/cashu/nuts/nut04"
 	"github.com/elnosh/gonuts/cashu/nuts/nut10"
 	"github.com/elnosh/gonuts/mint"
@@ -64,6 +65,7 @@ type Token struct {
 	Preimage string
 	Fees     bool
 	Amount   uint64 // requested amount
+	SigAll   bool   // P2PK lock carries the SIG_ALL flag
 }
 
 type Config struct {
@@ -263,7 +265,7 @@ const htlcPreimage = "aabbccddeeff00112233445566778899aabbccddeeff00112233445566
 // Exec runs one wallet-level operation.
 //   mint|w|amount            RequestMint + user pays + MintTokens
 //   send|w|amount|f          Send (f=1: include fees) -> token in flight
-//   sendpk|w|to|amount       SendToPubkey(to's receive key) -> token in flight
+//   sendpk|w|to|amount[|A]   SendToPubkey(to's receive key; A: SIG_ALL) -> token in flight
 //   htlc|w|amount            HTLCLockedProofs -> token in flight
 //   recv|w|ti|s              Receive / ReceiveHTLC token ti (s=1: swap to trusted mint)
 //   melt|w|amount|S/F/P      RequestMeltQuote(external invoice) + Melt with the backend answering S / F(ailed) / P(ending)
@@ -367,12 +369,16 @@ func (w *World) Exec(op string) error {
 		var ps cashu.Proofs
 		err := w.guard(op, func() error {
 			var e error
-			ps, e = ww.W.SendToPubkey(amount, URL(ww.Default), to.W.GetReceivePubkey(), nil, false)
+			var tags *nut11.P2PKTags
+			if arg(4) == "A" { // SIG_ALL: the receiver has to sign the outputs of its swap as well
+				tags = &nut11.P2PKTags{Sigflag: nut11.SIGALL}
+			}
+			ps, e = ww.W.SendToPubkey(amount, URL(ww.Default), to.W.GetReceivePubkey(), tags, false)
 			return e
 		})
 		w.note(op, err)
 		if err == nil {
-			w.Tokens = append(w.Tokens, &Token{Proofs: copyProofs(ps), Mint: ww.Default, From: ww.Idx, Kind: "p2pk", To: to.Idx, Amount: amount})
+			w.Tokens = append(w.Tokens, &Token{Proofs: copyProofs(ps), Mint: ww.Default, From: ww.Idx, Kind: "p2pk", To: to.Idx, Amount: amount, SigAll: arg(4) == "A"})
 			if w.OnTokens != nil {
 				w.OnTokens(ps)
 			}
@@ -874,7 +880,9 @@ func (w *World) Canon() string {
 		for i, k := range t.Keysets {
 			ksIdx[k] = fmt.Sprintf("%s%d", n, i)
 		}
-		fmt.Fprintf(&sb, "M%s:ks=%d:out=%d;", n, len(t.Keysets), t.Issued-t.Redeemed)
+		// the number of signatures a mint has stored is part of the state: two histories that leave the wallets alike
+		// may differ in which deterministic outputs are already signed (and would be refused if submitted again)
+		fmt.Fprintf(&sb, "M%s:ks=%d:out=%d:sigs=%d;", n, len(t.Keysets), t.Issued-t.Redeemed, len(t.Signed))
 	}
 	ms := func(ps []string) string { sort.Strings(ps); return strings.Join(ps, ",") }
 	for _, ww := range w.Wallets {
@@ -922,7 +930,11 @@ func (w *World) Canon() string {
 		for _, p := range t.Proofs {
 			ps = append(ps, fmt.Sprintf("%s:%d:%s", ksIdx[p.Id], p.Amount, w.mintStateOfSecret(p.Secret, p.Id)[:1]))
 		}
-		fmt.Fprintf(&sb, "T(%d>%d,%s)[%s];", t.From, t.To, t.Kind, ms(ps))
+		kind := t.Kind
+		if t.SigAll {
+			kind += "+SIG_ALL" // redeeming it takes other paths of the wallet
+		}
+		fmt.Fprintf(&sb, "T(%d>%d,%s)[%s];", t.From, t.To, kind, ms(ps))
 	}
 	return sb.String()
 }
